@@ -49,6 +49,21 @@ class G:
         self.w(w)
         return w
 
+    def chunk(self):
+        """one word in the sense of the threshold: a unit without white space, possibly a compound with hyphens,
+        an apostrophe or a decimal number"""
+        self.word()
+        r = self.rnd.random()
+        if r < .2:
+            self.w(self.rnd.choice(['-', "'", '-']))
+            self.word()
+            if self.rnd.random() < .4:
+                self.w('-')
+                self.word()
+            self.kinds['compound'] += 1
+        elif r < .27:
+            self.w(self.rnd.choice([',', '.', ':']) + '5')
+
     def other(self):
         names = [x for x in LMAP if LMAP[x] != self.stack[-1]]
         return self.rnd.choice(names)
@@ -212,7 +227,7 @@ class G:
             for i in range(k):
                 if i:
                     self.w(' ')
-                self.word()
+                self.chunk()
             self.stack.pop()
             self.w('}')
         elif kind == 'ol':
@@ -221,7 +236,7 @@ class G:
             for i in range(k):
                 if i:
                     self.w(' ')
-                self.word()
+                self.chunk()
             self.stack.pop()
             self.w('\\end{otherlanguage*}')
         else:
@@ -363,7 +378,7 @@ class C12(core.Check):
 
     def quotas(self, tier):
         q = {'docs_multi': 3000, 'probes_joined': 300, 'probes_split': 300, 'babel_options_2': 100, 'babel_options_3': 100}
-        for k in ('fl', 'ol', 'sel', 'same', 'sel_in', 'foot', 'head', 'decl', 'optend', 'ol_lines'):
+        for k in ('fl', 'ol', 'sel', 'same', 'sel_in', 'foot', 'head', 'decl', 'optend', 'ol_lines', 'compound'):
             q['kind_' + k] = 200
         return q
 
